@@ -164,13 +164,13 @@ impl Call {
 }
 
 #[derive(Clone, PartialEq, Debug)]
-struct Obs { ab: Vec<i128>, sb: Vec<i128>, sup: i128, ta: i128, aal: Vec<i128>, sal: Vec<i128>, dec: i128, asset: i128 }
+struct Obs { ab: Vec<i128>, sb: Vec<i128>, sup: i128, ta: i128, aal: Vec<i128>, sal: Vec<i128>, dec: i128, asset: i128, now: i128 }
 impl Obs {
     fn coq(&self) -> String {
         let l = |v: &Vec<i128>| list(&v.iter().map(|x| z(*x)).collect::<Vec<_>>());
         let nu = self.ab.len().max(1);
         let ll = |v: &Vec<i128>| list(&v.chunks(nu).map(|r| list(&r.iter().map(|x| z(*x)).collect::<Vec<_>>())).collect::<Vec<_>>());
-        format!("(Build_obs {} {} {} {} {} {} {} {})", l(&self.ab), l(&self.sb), z(self.sup), z(self.ta), ll(&self.aal), ll(&self.sal), z(self.dec), z(self.asset))
+        format!("(Build_obs {} {} {} {} {} {} {} {} {})", l(&self.ab), l(&self.sb), z(self.sup), z(self.ta), ll(&self.aal), ll(&self.sal), z(self.dec), z(self.asset), z(self.now))
     }
 }
 
@@ -212,7 +212,7 @@ impl World {
         let lib_kind = LIB_KIND.load(std::sync::atomic::Ordering::SeqCst);
         let reg = std::panic::catch_unwind(std::panic::AssertUnwindSafe(move || if lib_kind { e2.register(libvault::LibVault, (name, sym, asset2, off)) } else { e2.register(vaultc::ExampleContract, (name, sym, asset2, off)) }));
         QUIET.store(false, std::sync::atomic::Ordering::SeqCst);
-        let empty = Obs { ab: vec![0; nuni], sb: vec![0; nuni], sup: 0, ta: 0, aal: vec![0; nuni * nuni], sal: vec![0; nuni * nuni], dec: 0, asset: 1 };
+        let empty = Obs { ab: vec![0; nuni], sb: vec![0; nuni], sup: 0, ta: 0, aal: vec![0; nuni * nuni], sal: vec![0; nuni * nuni], dec: 0, asset: 1, now: now0 as i128 };
         let vault = match reg { Ok(v) => v, Err(_) => return Err(header_coq(off, adec, max_ttl, nuni, now0, None, &empty)) };
         let mut a = vec![vault.clone()];
         for _ in 1..nuni { a.push(Address::generate(&e)); }
@@ -234,7 +234,7 @@ impl World {
 
     fn observe(&self) -> Obs {
         let e = &self.e;
-        let mut o = Obs { ab: vec![], sb: vec![], sup: 0, ta: 0, aal: vec![], sal: vec![], dec: 0, asset: 0 };
+        let mut o = Obs { ab: vec![], sb: vec![], sup: 0, ta: 0, aal: vec![], sal: vec![], dec: 0, asset: 0, now: e.ledger().sequence() as i128 };
         for i in 0..self.n {
             o.ab.push(self.geti(&self.asset, "balance", soroban_sdk::vec![e, self.av(i)]).unwrap_or(-1));
             o.sb.push(self.geti(&self.vault, "balance", soroban_sdk::vec![e, self.av(i)]).unwrap_or(-1));
@@ -437,14 +437,20 @@ impl<'a> Run<'a> {
         }
         match &c {
             Call::Deposit(_, r, f, o, au) | Call::MintS(_, r, f, o, au) => {
-                if ok && o != f { self.out.label("deposit-like/ok-operator-allowance"); }
+                let moved = matches!(&c, Call::Deposit(x, ..) if *x > 0) || (matches!(&c, Call::MintS(..)) && ret.unwrap_or(0) > 0);
+                if ok && o != f && moved { self.out.label("deposit-like/ok-operator-allowance"); }
+                if ok && o != f && !moved { self.out.label("deposit-like/ok-operator-zero-amount"); }
+                if ok && o != f && moved && opinfo.map(|(w, _)| w).unwrap_or(false) { self.out.label("deposit-like/ok-operator-wide-product"); }
                 if ok && r != f { self.out.label("deposit-like/ok-receiver-differs"); }
                 if !ok && !au.iter().any(|(i, k)| i == o && *k == K::Full) { self.out.label("deposit-like/fail-auth"); }
                 if !ok && pre.0 == "Fail" { self.out.label("deposit-like/fail-preview"); }
                 if ok && ret == Some(0) { self.out.label("deposit-like/ok-zero-result"); }
             }
             Call::Withdraw(_, r, ow, o, au) | Call::Redeem(_, r, ow, o, au) => {
-                if ok && o != ow { self.out.label("withdraw-like/ok-operator-allowance"); }
+                let moved = (matches!(&c, Call::Redeem(x, ..) if *x > 0)) || (matches!(&c, Call::Withdraw(..)) && ret.unwrap_or(0) > 0);
+                if ok && o != ow && moved { self.out.label("withdraw-like/ok-operator-allowance"); }
+                if ok && o != ow && !moved { self.out.label("withdraw-like/ok-operator-zero-amount"); }
+                if ok && o != ow && moved && opinfo.map(|(w, _)| w).unwrap_or(false) { self.out.label("withdraw-like/ok-operator-wide-product"); }
                 if ok && r != ow { self.out.label("withdraw-like/ok-receiver-differs"); }
                 if !ok && !au.iter().any(|(i, k)| i == o && *k != K::Sub) { self.out.label("withdraw-like/fail-auth"); }
                 if !ok && pre.0 != "Fail" && au.iter().any(|(i, k)| i == o && *k != K::Sub) { self.out.label("withdraw-like/fail-limit"); }
@@ -565,6 +571,7 @@ fn scenarios(out: &mut Out) {
         r.go(Call::Deposit(99, 3, 1, 2, vec![(2, K::Root)]));        // nested call not signed
         r.go(Call::Deposit(99, 3, 1, 2, vec![(2, K::Sub)]));         // only the nested call signed
         r.go(Call::Deposit(99, 3, 1, 2, vec![(1, K::Full)]));        // from signs, operator does not
+        r.go(Call::Deposit(99, 3, 1, 2, vec![(2, K::Root), (2, K::Sub)]));   // two separate entries of the operator: root call and stand-alone nested call
         r.go(Call::Deposit(99, 3, 1, 2, full(2)));
         r.go(Call::Deposit(1, 3, 1, 2, vec![(2, K::Full), (4, K::Root)]));
         r.go(Call::Deposit(1, 3, 1, 2, full(2)));                    // allowance exhausted
@@ -677,6 +684,49 @@ fn long_gaps(out: &mut Out, thorough: bool) {
         let s3 = r.w.obs.sb[3];
         r.go(Call::Redeem(s3, 3, 3, 3, full(3)));
         r.finish(&format!("S6-long-gaps-mintemp{}-maxttl{}-off{}", min_temp, max_ttl, off));
+    }
+}
+
+/// S7: rounding dust captured by the holders (the literal "never more out than in" is false: C05_no_profit_literal_refuted),
+/// and operator / allowance flows with wide intermediate products interleaved with donations
+fn s7(out: &mut Out) {
+    // dust: user 1 deposits 10, user 2 mints one share ten times (1 asset each), user 1 redeems everything
+    for off in [1u32, 3] {
+        let Some(w) = mk(out, off, 7, 6_312_000, 100) else { continue };
+        let mut r = Run { w, items: vec![], out };
+        r.go(Call::AMint(1, 10)); r.go(Call::AMint(2, 50));
+        r.go(Call::Deposit(10, 1, 1, 1, full(1)));
+        for _ in 0..10 { r.go(Call::MintS(1, 2, 2, 2, full(2))); }
+        let s1 = r.w.obs.sb[1];
+        let before = r.w.obs.ab[1];
+        r.go(Call::Redeem(s1, 1, 1, 1, full(1)));
+        if r.w.obs.ab[1] - before > 10 { r.out.label("op/dust-captured-by-holder"); }
+        let s2 = r.w.obs.sb[2];
+        r.go(Call::Redeem(s2, 2, 2, 2, full(2)));
+        r.finish(&format!("S7-dust-off{}", off));
+    }
+    // operator flows, wide products, donations in between
+    for off in [0u32, 10] {
+        let Some(w) = mk(out, off, 7, 6_312_000, 100) else { continue };
+        let mut r = Run { w, items: vec![], out };
+        let big = 1i128 << 96;
+        r.go(Call::AMint(1, big * 8)); r.go(Call::AMint(4, big));
+        r.go(Call::Deposit(big + 12_345, 1, 1, 1, full(1)));
+        r.go(Call::AApprove(1, 2, big * 4, 5_000_000, full(1)));
+        r.go(Call::ATransfer(4, 0, (big >> 7) + 3, full(4)));
+        r.go(Call::Deposit((big >> 3) + 777, 3, 1, 2, full(2)));            // operator 2, from 1, receiver 3
+        r.go(Call::ATransfer(4, 0, (big >> 9) + 1, full(4)));
+        r.go(Call::MintS((big >> 5) * pow10(off).min(1 << 20) + 13, 3, 1, 2, full(2)));
+        let s3 = r.w.obs.sb[3];
+        r.go(Call::SApprove(3, 2, s3, 5_000_000, full(3)));
+        r.go(Call::Redeem(s3 / 3 + 1, 4, 3, 2, full(2)));                   // operator 2, owner 3, receiver 4
+        r.go(Call::ATransfer(4, 0, 99_999, full(4)));
+        let mw = r.w.geti(&r.w.vault.clone(), "max_withdraw", soroban_sdk::vec![&r.w.e, r.w.av(3)]).unwrap_or(0);
+        r.go(Call::Withdraw(mw / 2 + 1, 1, 3, 2, full(2)));
+        let left = r.w.obs.sal[3 * 5 + 2];
+        r.go(Call::Redeem(left + 1, 4, 3, 2, full(2)));                     // one more than the remaining allowance
+        r.go(Call::Redeem(left, 4, 3, 2, full(2)));                         // exactly the remaining allowance
+        r.finish(&format!("S7-operator-wide-off{}", off));
     }
 }
 
@@ -801,6 +851,12 @@ fn random_trace(out: &mut Out, rng: &mut Rng, idx: usize, len: usize) {
             let rel = [o.ab[from], o.aal[from * 5 + operator], o.ta, o.sup];
             let x = if structured && o.ab[from] > 0 { 1 + (rng.next_u128() % (o.ab[from] as u128)) as i128 } else { pick_amount(rng, mode, &rel) };
             let au = if structured && operator != 0 && !rng.chance(1, 7) { full(operator) } else { pick_auth(rng, operator, &[from, receiver], true) };
+            // aim an allowance at exactly this (from, operator) pair: boundary (exact), generous, or one short
+            if operator != from && from != 0 && x > 0 && rng.chance(3, 4) {
+                let amt = match rng.below(6) { 0 => x - 1, 1 | 2 => x, _ => x.saturating_add(rng.range(1, 1000) as i128) };
+                let live = if rng.chance(1, 2) { now + rng.range(0, 3000) as u32 } else { (now as u64 + max_ttl as u64 - 1).min(u32::MAX as u64) as u32 };
+                r.go(Call::AApprove(from, operator, amt, live, full(from)));
+            }
             r.go(Call::Deposit(x, receiver, from, operator, au));
         } else if d < 34 {
             // mint shares
@@ -811,6 +867,12 @@ fn random_trace(out: &mut Out, rng: &mut Rng, idx: usize, len: usize) {
             let rel = [afford, afford.saturating_add(pow10(off)), o.sup, pow10(off)];
             let x = if structured && afford > 0 { 1 + (rng.next_u128() % (afford as u128)) as i128 } else { pick_amount(rng, mode, &rel) };
             let au = if structured && operator != 0 && !rng.chance(1, 7) { full(operator) } else { pick_auth(rng, operator, &[from, receiver], true) };
+            if operator != from && from != 0 && x > 0 && rng.chance(3, 4) {
+                let cost = r.w.geti(&r.w.vault.clone(), "preview_mint", soroban_sdk::vec![&r.w.e, r.w.iv(x)]).unwrap_or(0);
+                let amt = match rng.below(6) { 0 => cost - 1, 1 | 2 => cost, _ => cost.saturating_add(rng.range(1, 1000) as i128) };
+                let live = if rng.chance(1, 2) { now + rng.range(0, 3000) as u32 } else { (now as u64 + max_ttl as u64 - 1).min(u32::MAX as u64) as u32 };
+                r.go(Call::AApprove(from, operator, amt, live, full(from)));
+            }
             r.go(Call::MintS(x, receiver, from, operator, au));
         } else if d < 48 {
             // withdraw
@@ -821,6 +883,12 @@ fn random_trace(out: &mut Out, rng: &mut Rng, idx: usize, len: usize) {
             let rel = [mw, o.ta, mw];
             let x = if structured && mw > 0 { 1 + (rng.next_u128() % (mw as u128)) as i128 } else { pick_amount(rng, mode, &rel) };
             let au = if structured && operator != 0 && !rng.chance(1, 7) { full(operator) } else { pick_auth(rng, operator, &[owner, receiver], false) };
+            if operator != owner && owner != 0 && x > 0 && rng.chance(3, 4) {
+                let need = r.w.geti(&r.w.vault.clone(), "preview_withdraw", soroban_sdk::vec![&r.w.e, r.w.iv(x)]).unwrap_or(0);
+                let amt = match rng.below(6) { 0 => need - 1, 1 | 2 => need, _ => need.saturating_add(rng.range(1, 1000) as i128) };
+                let live = if rng.chance(1, 2) { now + rng.range(0, 3000) as u32 } else { (now as u64 + max_ttl as u64 - 1).min(u32::MAX as u64) as u32 };
+                r.go(Call::SApprove(owner, operator, amt, live, full(owner)));
+            }
             r.go(Call::Withdraw(x, receiver, owner, operator, au));
         } else if d < 62 {
             // redeem
@@ -830,6 +898,11 @@ fn random_trace(out: &mut Out, rng: &mut Rng, idx: usize, len: usize) {
             let rel = [o.sb[owner], o.sal[owner * 5 + operator], o.sup];
             let x = if structured && o.sb[owner] > 0 { 1 + (rng.next_u128() % (o.sb[owner] as u128)) as i128 } else { pick_amount(rng, mode, &rel) };
             let au = if structured && operator != 0 && !rng.chance(1, 7) { full(operator) } else { pick_auth(rng, operator, &[owner, receiver], false) };
+            if operator != owner && owner != 0 && x > 0 && rng.chance(3, 4) {
+                let amt = match rng.below(6) { 0 => x - 1, 1 | 2 => x, _ => x.saturating_add(rng.range(1, 1000) as i128) };
+                let live = if rng.chance(1, 2) { now + rng.range(0, 3000) as u32 } else { (now as u64 + max_ttl as u64 - 1).min(u32::MAX as u64) as u32 };
+                r.go(Call::SApprove(owner, operator, amt, live, full(owner)));
+            }
             r.go(Call::Redeem(x, receiver, owner, operator, au));
         } else if d < 70 {
             // donation / asset transfer / yield
@@ -890,10 +963,12 @@ fn main() {
         scenarios(&mut out);
         ctor_cases(&mut out, &mut rng);
         grids(&mut out, &mut rng, thorough);
+        s7(&mut out);
     }
     set_kind(false);
     long_gaps(&mut out, thorough);
-    let ntr = (if thorough { 1500 } else { 110 }) * out.cfg.scale as usize;
+    // C05_DIRECTED_ONLY=1: only the directed scenarios (used to verify that every must_cover label is hit without the random stream)
+    let ntr = if std::env::var("C05_DIRECTED_ONLY").is_ok() { 0 } else { (if thorough { 1500 } else { 110 }) * out.cfg.scale as usize };
     for i in 0..ntr {
         let len = if thorough { rng.range(20, 90) as usize } else { rng.range(15, 45) as usize };
         random_trace(&mut out, &mut rng, i, len);
